@@ -392,6 +392,20 @@ def _r2_arity_keyword_filter_shape(ctx, strict_extra=False):
 
 # ------------------------------------------------------------------ R3
 def r3_candidates_only_narrow(ctx):
+    """Decided on the interpreted ranking (a key whose first argument nothing applies to, and one where two methods
+    apply at different arguments only, have no candidates); the statement shapes below are the fallback."""
+    from . import mroexec
+
+    n0 = len(ctx.obs)
+    try:
+        mroexec.law(ctx, "candidates", scenarios=["nothing-at-the-first-argument", "nothing-at-one-argument"])
+        return
+    except AnalysisError:
+        del ctx.obs[n0:]
+    _r3_candidates_only_narrow_shape(ctx)
+
+
+def _r3_candidates_only_narrow_shape(ctx):
     m = candidates_fn(ctx)
     ctx.touch(m)
     hits = []
